@@ -2,6 +2,12 @@ PROP = dict(
     id="C10",
     engines=["c10"],
     go_tags=["c08", "c09", "c10"],
+    extract_files={
+        "MM/Gen/LockC08.lean": {"cmd": ["go", "run", "{VERIF}/tools/lockshape.go", "LockC08", "{REPO}/internal/routing/table.go", "Table.AddRoute,Table.RemoveRoute,Table.RemoveRoutesFromPeer,Table.CleanupStaleRoutes,Table.Clear,Table.Lookup,Table.LookupAll,Table.GetRoute,Table.HasRoute", "mu", "routes"]},
+        "MM/Gen/LockC09d.lean": {"cmd": ["go", "run", "{VERIF}/tools/lockshape.go", "LockC09d", "{REPO}/internal/routing/domain.go", "DomainTable.AddRoute,DomainTable.RemoveRoute,DomainTable.RemoveRoutesFromPeer,DomainTable.CleanupStaleRoutes,DomainTable.Clear,DomainTable.Lookup,DomainTable.HasRoute", "mu", "exactRoutes,wildcardBase"]},
+        "MM/Gen/LockC09f.lean": {"cmd": ["go", "run", "{VERIF}/tools/lockshape.go", "LockC09f", "{REPO}/internal/routing/forward.go", "ForwardTable.AddRoute,ForwardTable.RemoveRoute,ForwardTable.RemoveRoutesFromPeer,ForwardTable.CleanupStaleRoutes,ForwardTable.Clear,ForwardTable.Lookup,ForwardTable.HasRoute", "mu", "routes"]},
+        "MM/Gen/LockC09a.lean": {"cmd": ["go", "run", "{VERIF}/tools/lockshape.go", "LockC09a", "{REPO}/internal/routing/agent.go", "AgentTable.AddRoute,AgentTable.RemoveRoute,AgentTable.RemoveRoutesFromPeer,AgentTable.CleanupStaleRoutes,AgentTable.Clear,AgentTable.Lookup,AgentTable.GetRoutesForAgent", "mu", "routes"]},
+    },
     lean_modules=["MM.Props.C10"],
     theorems=[
         "MM.C08.C10_add_outcome",
@@ -26,6 +32,8 @@ PROP = dict(
          "the table or was refused for a rule.",
     nontrivial=lambda op, out: " ; " in out and not op.startswith(("cage", "dage", "fage", "aage", "mage")),
     trusted_base=[
+        "tools/lockshape.go (go/ast): the lock-shape facts MM/Gen/Lock*.lean the atomic-step theorems are decided on; goroutine scheduling "
+        "inside one critical section and sync.RWMutex itself are assumed, not modelled",
         "the models of MM/Model/C08.lean, C09.lean (see C08/C09) and MM/Model/C10.lean (Manager wrappers: own sequence counter, uint16 metric+1)",
         "the four tables of a Manager share no state (each has its own mutex and maps), so a history across them is a history of each",
         "sort.Slice modelled as the stable sort (exact for <= 12 entries per key / distinct metrics; the agent table's RemoveRoute depends on it)",
@@ -33,6 +41,9 @@ PROP = dict(
         "flip a comparison",
     ],
     assumptions=[
+        "each table method is one atomic step: tied to the source by the *_atomic_steps theorems (one lock acquisition per method, route map "
+        "touched only under the write lock in mutators, read under R/W in lookups) and exercised by the `race` stress op (goroutines released at "
+        "once, up to 400 attempts per op, outcome must be a well-formed table equal to the result of some serial order)",
         "operations on one table are serialised by its mutex (lock granularity = one method call); concurrent schedules are not enumerated",
         "Manager.AddLocalDomainRoute / AddLocalForwardRoute (pattern validation, shared sequence counter) are not driven; their table effect is "
         "DomainTable.AddRoute / ForwardTable.AddRoute, which are",
@@ -49,3 +60,28 @@ PROP = dict(
         technique="Lean 4 proof (inductive invariant + per-operation outcome theorems) + differential correspondence harness + rule re-evaluation on impl tables",
     ),
 )
+
+
+# --- atomic-step tie ---------------------------------------------------------------------------
+# The lock-shape theorems live in their own Lean module and are built here, not in the main build:
+# when they break (a critical section was split or an access moved out of it) the model and the
+# driver still build, so the differential run and the failing-input search (concurrency stress op
+# `race`) can still look for a concrete bad outcome.
+LOCK_MODULE = "MM.Props.C10Lock"
+LOCK_THEOREMS = ['MM.C08.C10_atomic_steps']
+
+
+def before_diff(c):
+    import vlib
+    ok, out, failed = vlib.lake_build([LOCK_MODULE])
+    if not ok:
+        c.oblige("tie:atomic-steps(" + LOCK_MODULE + ")", "tie", False,
+                 "a table method no longer is one critical section under the write lock (see MM/Gen/Lock*.lean):\n" + "\n".join(failed) + "\n" + out[-1500:])
+        return
+    res, text = vlib.audit_axioms([LOCK_MODULE], LOCK_THEOREMS)
+    for t in LOCK_THEOREMS:
+        ax = res.get(t)
+        c.axioms[t] = ax
+        c.oblige("thm:" + t, "thm", ax is not None and all(a in vlib.ALLOWED_AXIOMS for a in ax), "axioms: " + ", ".join(ax or ["<missing>"]))
+    hits = vlib.grep_forbidden([vlib.module_file(m) for m in vlib.transitive_local_imports([LOCK_MODULE])])
+    c.oblige("no-sorry-admit-native_decide-axiom(lock)", "audit", not hits, "\n".join(hits))
